@@ -13,8 +13,10 @@
    (Color256.tol256) is the single tolerance:
      - proved: every typed table constant is within eps of the library's own
        linearisation (C20_tables); hence the exact model's entry, measured at the
-       true palette positions, is closest up to 12 eps in SQUARED distance
-       (C20_closest_256_true_palette_upto_eps);
+       true palette positions, is closest up to 12 eps = 1.2e-5 in SQUARED distance
+       (C20_closest_256_true_palette_upto_eps_exact_model).  NOTE this is weaker than what is run: in
+       DISTANCE it only gives an excess below sqrt(1.2e-5) = 3.5e-3 (reached when the optimum is at
+       distance 0) and 6e-6 / d_min for an optimum at distance d_min;
      - run on every check, exhaustively over all 2^24 colours x 3 roles (harness
        tool c20sweep, exact integers) and on the sampled Coq cases: the entry the
        f32 implementation emits is within eps in DISTANCE of the brute-force
@@ -29,7 +31,7 @@ Local Open Scope Z_scope.
 (* 1. the algorithm, for ALL channel values (any rationals) and ANY strictly increasing
       tables of 6 cube levels and 24 greys: the index is a non-system one and its entry
       minimises the Euclidean distance among all 240 entries the tables describe *)
-Theorem C20_algorithm :
+Theorem C20_algorithm_exact_model :
   forall (cube greys : list Z) (v : vec),
   StronglySorted Z.lt cube -> length cube = 6%nat -> StronglySorted Z.lt greys -> length greys = 24%nat ->
   (16 <= pal_algo cube greys v < 256)%N /\
@@ -46,7 +48,9 @@ Proof. exact tables_ok_true. Qed.
 (* 3. hence for every 8-bit colour the exact model picks a closest entry among all 240
       non-system ones, positions as typed in the tables *)
 Theorem C20_closest_256_exact_model :
-  forall c : rgba, ca c = 255%N ->      (* opaque: the code premultiplies by alpha, the model does not *)
+  forall c : rgba, rgba_ok c = true -> ca c = 255%N ->
+  (* scope, not used by the proof: the model looks channels up in the 256-entry table and ignores alpha,
+     the code premultiplies by alpha -- the statement is claimed for opaque 8-bit colours only *)
   (16 <= pal256_exact c < 256)%N /\
   forall m, (16 <= m < 256)%N ->
     d2 (lin_vec c) (entry cube_z greys_z (pal256_exact c)) <= d2 (lin_vec c) (entry cube_z greys_z m).
@@ -55,32 +59,49 @@ Proof. exact pal256_exact_optimal_opaque. Qed.
 (* 3b. EPSILON statement: at the TRUE palette positions (library's own linearisation of the
        xterm levels 0,95,135,175,215,255 / 8+10k) the exact model's entry is closest up to
        eps_sq_bound = 12 * eps * 1 in squared linear-light distance, eps = 1e-6 *)
-Theorem C20_closest_256_true_palette_upto_eps :
-  forall (c : rgba), ca c = 255%N -> forall m, (16 <= m < 256)%N ->
+Theorem C20_closest_256_true_palette_upto_eps_exact_model :
+  forall (c : rgba), rgba_ok c = true -> ca c = 255%N -> forall m, (16 <= m < 256)%N ->
     d2 (lin_vec c) (entry xcube_z xgreys_z (pal256_exact c))
     <= d2 (lin_vec c) (entry xcube_z xgreys_z m) + eps_sq_bound.
 Proof. exact pal256_true_palette_upto_eps_opaque. Qed.
 
-(* 3c. the tolerance predicate of the correspondence check means "sqrt xx <= sqrt yy + eps" *)
-Theorem C20_tolerance_predicate :
+(* 3c. lemmas about the CHECKER: the tolerance predicate of the correspondence check stands for
+       sqrt xx <= sqrt yy + eps.  It is applied to sums of three squares (d2), which are not perfect
+       squares: the first two lemmas sandwich it between integer bounds of the two roots (units of
+       1/color_den = 7.5e-15), the third is the special case of perfect squares. *)
+Lemma C20_tolerance_predicate_sound :
+  forall xx yy e a b, 0 <= a -> 0 <= b -> 0 <= e -> a * a <= xx -> yy <= b * b ->
+  sqrt_le_plus xx yy e = true -> a <= b + e.
+Proof. exact sqrt_le_plus_sound. Qed.
+Lemma C20_tolerance_predicate_complete :
+  forall xx yy e a b, 0 <= a -> 0 <= b -> 0 <= e -> 0 <= yy -> xx <= a * a -> b * b <= yy -> a <= b + e ->
+  sqrt_le_plus xx yy e = true.
+Proof. exact sqrt_le_plus_complete. Qed.
+Lemma C20_tolerance_predicate_squares :
   forall a b e, 0 <= a -> 0 <= b -> 0 <= e -> (sqrt_le_plus (a * a) (b * b) e = true <-> a <= b + e).
 Proof. exact sqrt_le_plus_squares. Qed.
 
-(* 4. grey depth: the level is a nearest of the four by luma ... *)
-Theorem C20_gray_nearest :
+(* 4. grey depth (exact model): the level is a nearest of the four by luma -- the four luminances
+      being those of the VGA system colours 0, 8, 7, 15 = 0, 1/3, 2/3, 1 (spec decision, see
+      Color256.tables_ok and C20_tables) ... *)
+Theorem C20_gray_nearest_exact_model :
   forall c : rgba,
   (gray4_exact c < 4)%N /\
   forall j, (j < 4)%nat ->
     Z.abs (luma_z c - nthz gray_levels_z (N.to_nat (gray4_exact c))) <= Z.abs (luma_z c - nthz gray_levels_z j).
 Proof. exact gray4_exact_nearest. Qed.
 
-(*    ... and increases monotonically with it *)
-Theorem C20_gray_monotone :
+(*    ... and increases monotonically with it.  FOR THE CODE monotonicity is run, exhaustively, by
+      c20sweep: no level decreases when the exact luma increases by more than 1e-6 (observed: no
+      inversion at all between different luma values; at the 3 luma values that are exact ties between
+      two levels, colours of equal luma get either level -- corpus/C20/002-gray-ties.jsonl) *)
+Theorem C20_gray_monotone_exact_model :
   forall c1 c2 : rgba, luma_z c1 <= luma_z c2 -> (gray4_exact c1 <= gray4_exact c2)%N.
 Proof. exact gray4_exact_monotone. Qed.
 
 (* 5. true colour: the channels are transmitted unchanged (whatever the prior rendition) *)
-Theorem C20_truecolor :
+(* re-export of C05_face_exact, not an obligation of its own *)
+Lemma C20_truecolor :
   forall (pal256 gray4 : rgba -> N), (forall c, (pal256 c < 256)%N) ->
   forall (glyphs kitty : bool) (f : face), cmd_ok (Face f) = true ->
   exists bs t, encode pal256 gray4 (mkCaps TrueColor glyphs kitty) (Face f) = Ok bs /\
@@ -96,9 +117,10 @@ Proof. exact c05_face_exact_thm. Qed.
                       underline colour (the library sends no grey rendering of it: a decision of
                       the code, recorded here as part of the specification),
       and touches no other aspect of the rendition. *)
-Theorem C20_roles :
+Theorem C20_roles_exact_model :
   forall d glyphs kitty fg bg ul,
   rgba_ok fg = true -> rgba_ok bg = true -> rgba_ok ul = true ->
+  ca fg = 255%N -> ca bg = 255%N -> ca ul = 255%N ->          (* scope: opaque colours *)
   exists bs,
     encode_c20 (mkCaps d glyphs kitty) (FaceModify (colours_fm fg bg ul)) = Ok bs /\
     vt_complete bs = true /\
@@ -111,16 +133,17 @@ Theorem C20_roles :
             | Gray => only_colours (Some (CIdx (gray_entry (gray4_exact fg)))) (Some (CIdx (gray_entry (gray4_exact bg))))
                                    None
             end].
-Proof. exact c20_roles. Qed.
+Proof. exact c20_roles_opaque. Qed.
 
 (* 7. the brute-force minimum used by the correspondence predicate (best_d2_tab: the 240 true
       palette positions, tabulated once) is below the distance of every entry *)
-Theorem C20_bruteforce_is_minimum :
+(* a lemma about the CHECKER (lower bound only: the tabulated minimum is below every entry's distance) *)
+Lemma C20_bruteforce_is_minimum :
   forall v m, (16 <= m < 256)%N -> best_d2_tab v <= d2 v (entry xcube_z xgreys_z m).
 Proof. exact best_d2_tab_spec. Qed.
 
 Check C20_closest_256_exact_model :
-  forall c : rgba, ca c = 255%N ->
+  forall c : rgba, rgba_ok c = true -> ca c = 255%N ->
   (16 <= pal256_exact c < 256)%N /\
   forall m, (16 <= m < 256)%N ->
     d2 (lin_vec c) (entry cube_z greys_z (pal256_exact c)) <= d2 (lin_vec c) (entry cube_z greys_z m).
@@ -133,4 +156,19 @@ Example C20_nonvacuous :
   gray4_exact (mkRgba 40 40 40 255) = 0%N /\ gray4_exact (mkRgba 235 219 178 255) = 3%N /\
   face_rendition (mkFace (Some (mkRgba 1 2 3 255)) None 0) =
     mkRend INormal false LNone false false false false (CRgb 1 2 3) CDefault CDefault.
+Proof. vm_compute. repeat split; reflexivity. Qed.
+
+(* the grey-level decision in numbers: the levels are the VGA luminances 0, 1/3, 2/3, 1 (within 0.01);
+   a mid grey of luma .549 goes to level 2 = colour 7 (VGA .667; in xterm's palette colour 7 has luma
+   .898 and colour 8, luma .498, would be nearer there -- the decision recorded in Color256.tables_ok) *)
+Example C20_gray_levels_are_vga :
+  map (fun c => luma_z c) [mkRgba 0 0 0 255; mkRgba 85 85 85 255; mkRgba 170 170 170 255; mkRgba 255 255 255 255]
+    = [0; 850000; 1700000; 2550000] /\
+  gray_levels_z = [0; 841500; 1683000; 2550000] /\
+  gray4_exact (mkRgba 140 140 140 255) = 2%N /\
+  luma_z (mkRgba 140 140 140 255) = 1400000 /\
+  (* exact ties between two levels exist among the 8-bit colours (the tie rule sends them up) *)
+  luma_z (mkRgba 29 28 220 255) = 420750 /\ luma_z (mkRgba 12 38 171 255) = 420750 /\
+  2 * 420750 = nth 0 gray_levels_z 0 + nth 1 gray_levels_z 0 /\
+  gray4_exact (mkRgba 29 28 220 255) = 1%N.
 Proof. vm_compute. repeat split; reflexivity. Qed.
